@@ -734,3 +734,46 @@ Proof.
   apply sinc_complementary_whole with (c := c); try assumption.
   rewrite sinc_bandstop_length by lia. exact H0.
 Qed.
+
+(* ------------------------------------------------------------------ *)
+(* the support route keeps every timestamp; an interval holding no sample is left alone *)
+(* ------------------------------------------------------------------ *)
+Lemma filter_all_true {A} (p : A -> bool) l : Forall (fun x => p x = true) l -> filter p l = l.
+Proof. induction 1 as [|x l Hx _ IH]; simpl; [reflexivity|]. rewrite Hx, IH. reflexivity. Qed.
+
+Theorem convolve_support_route_time_axis : forall ts col ep kern m, sortedZ ts -> canonical ep -> kern <> [] ->
+  length col = length ts -> Forall (fun t => mem t ep = true) ts ->
+  fst (convolve_arg ts col ep kern m) = ts
+  /\ length (snd (convolve_arg ts col ep kern m)) = length ts.
+Proof.
+  intros ts col ep kern m Hs Hc Hk Hl Hin.
+  destruct (convolve_arg_time_axis ts col ep kern m Hs Hc Hk Hl) as [E [_ L]].
+  rewrite (filter_all_true _ _ Hin) in E. split; [exact E|]. rewrite L, E. reflexivity.
+Qed.
+
+Lemma epoch_step_empty : forall G ts col acc s e, G [] = [] ->
+  ss_left s ts = ss_right e ts ->
+  epoch_step G ts col acc (s, e) = acc.
+Proof.
+  intros G ts col acc s e HG H. unfold epoch_step, get_range. cbn [fst snd]. rewrite H.
+  unfold splice, slice. rewrite Nat.sub_diag. cbn [firstn]. rewrite HG. cbn [app]. apply firstn_skipn.
+Qed.
+
+Theorem apply_epochs_empty_epoch : forall G ts col pre s e post, len_pres G ->
+  ss_left s ts = ss_right e ts ->
+  apply_epochs G ts col (pre ++ (s, e) :: post) = apply_epochs G ts col (pre ++ post).
+Proof.
+  intros G ts col pre s e post HG H. unfold apply_epochs. rewrite !fold_left_app. cbn [fold_left].
+  rewrite epoch_step_empty; [reflexivity| |exact H].
+  specialize (HG []). destruct (G []); [reflexivity|discriminate].
+Qed.
+
+Theorem convolve_epochs_empty_epoch : forall ts col pre s e post kern m, kern <> [] ->
+  ss_left s ts = ss_right e ts ->
+  convolve_epochs ts col (pre ++ (s, e) :: post) kern m = convolve_epochs ts col (pre ++ post) kern m.
+Proof. intros. unfold convolve_epochs. apply apply_epochs_empty_epoch; [apply conv_window_len_pres|]; assumption. Qed.
+
+Theorem butter_empty_epoch : forall F, len_pres F -> forall ts col pre s e post,
+  ss_left s ts = ss_right e ts ->
+  butter_epochs F ts col (pre ++ (s, e) :: post) = butter_epochs F ts col (pre ++ post).
+Proof. intros. unfold butter_epochs. apply apply_epochs_empty_epoch; assumption. Qed.
